@@ -94,6 +94,11 @@ def build_tree(cells, root):
     return val(root)
 
 
+class GroupUnit:
+    """the class of the class groups (add_class_arguments(GroupUnit, key)): no parameters; an instance is shown as a new,
+    empty object"""
+
+
 def view(o, ids, depth=0):
     if depth > 40:
         return {"x": "depth"}
@@ -121,6 +126,8 @@ def content(o, ids, depth=0):
         return {"x": "dict-with-nonstr-keys"}
     if isinstance(o, list):
         return {"nl": [view(e, ids, depth + 1) for e in o]}
+    if type(o) is GroupUnit:
+        return {"nns": []}
     return {"x": type(o).__name__}
 
 
@@ -180,6 +187,8 @@ def run(case, base, idx):
             p.add_argument("--" + prefix + key, type=mk_type(t[1]), nargs="*", default=dv)
         else:
             p.add_argument("--" + prefix + key, type=mk_type(t), default=dv)
+    for g in case["op"].get("groups", []):
+        p.add_class_arguments(GroupUnit, g)
     acts = {a.dest: a for a in p._actions}
     for (key, _, d), dv in zip(case["parser"], dflts):
         if "r" in d and acts[prefix + key].default is not dv:
@@ -224,7 +233,7 @@ def run(case, base, idx):
             result = p.merge_config(val(op["a"]), val(op["b"]))
         elif kind == "strip_unknown":
             result = p.strip_unknown(val(op["a"]))
-        elif kind == "instantiate":
+        elif kind in ("instantiate", "instantiate_groups"):
             result = p.instantiate_classes(val(op["a"]))
         else:
             raise SystemExit("unknown op " + kind)
